@@ -137,6 +137,8 @@ pub enum ImageMode {
     DataLatestMetaDurable,
     /// Each dirty page independently picks any version (durable..latest).
     Random(u64),
+    /// Exhaustive latest/durable choice: bit i of the mask = i-th dirty page (data file first) is latest.
+    Subset(u64),
 }
 
 impl ImageMode {
@@ -147,6 +149,7 @@ impl ImageMode {
             ImageMode::MetaLatestDataDurable => "meta-latest-data-durable",
             ImageMode::DataLatestMetaDurable => "data-latest-meta-durable",
             ImageMode::Random(_) => "random-subset",
+            ImageMode::Subset(_) => "enumerated-subset",
         }
     }
     pub fn is_syncs_only(&self) -> bool {
@@ -233,6 +236,24 @@ impl DiskState {
                 Self::choose(&self.data, true, None, stat_mixed),
                 Self::choose(&self.regions, false, None, stat_mixed),
             ),
+            ImageMode::Subset(mask) => {
+                let mut d = self.data.durable.clone();
+                let mut r = self.regions.durable.clone();
+                let mut bit = 0u32;
+                for (p, v) in &self.data.dirty {
+                    if mask >> bit & 1 == 1 && let Some(l) = v.last() {
+                        d.insert(*p, l.clone());
+                    }
+                    bit += 1;
+                }
+                for (p, v) in &self.regions.dirty {
+                    if mask >> bit & 1 == 1 && let Some(l) = v.last() {
+                        r.insert(*p, l.clone());
+                    }
+                    bit += 1;
+                }
+                (d, r)
+            }
             ImageMode::Random(seed) => {
                 let mut rng = Rng::new(seed);
                 let d = Self::choose(&self.data, true, Some(&mut rng), stat_mixed);
